@@ -1,5 +1,5 @@
 CHECK = {
-    "suites": [suite("allocate", "c03", 6000, 120000, stdin=True)],
+    "suites": [suite("allocate", "c03", 6000, 600000, stdin=True)],
     "lean_sources": ["ClusterVerif/Model/C03.lean", "ClusterVerif/Spec/C03.lean", "ClusterVerif/Lemmas/C03.lean"],
     "rule": "cases = (strategy, factor pair, 0-8 peers each in one of 5 metric states, current/exclusion/priority lists) "
             "drawn from one splitmix64 stream per case index; non-trivial = positive factors or everywhere (-1,-1); distinct by case line",
